@@ -1,5 +1,6 @@
-import NimaVerif.Model.Edit
+import NimaVerif.Model.EditSpec
 import NimaVerif.Lemmas.NPath
+import NimaVerif.Lemmas.Edit
 /-!
 Helper lemmas for C08 ("a rejected edit is loud and leaves the document exactly as it was").
 
@@ -882,5 +883,269 @@ theorem removeValueInAttrset_clean (ts : Node) (npath : Text) :
           · split
             · rename_i hl; exact absurd hl (getLast?_cons_ne_none _ _)
             · exact (setDelItem_clean _ _).mono fun _ h _ => Or.inl h
+
+theorem Doc.same_refl (d : Doc) : d.same d := rfl
+theorem Doc.same_of_eq {d d' : Doc} (h : d' = d) : d.same d' := by subst h; rfl
+theorem Doc.same_trans {a b c : Doc} (h1 : a.same b) (h2 : b.same c) : a.same c := by
+  unfold Doc.same at *
+  cases a; cases b; cases c
+  simp only [Doc.mk.injEq] at *
+  simp_all
+
+theorem setNthNonEmpty_self (stack : List Layer) : ∀ (idx : Nat) (l : Layer),
+    (stack.filter (!·.scope.isEmpty))[idx]? = some l → setNthNonEmpty l.scope idx stack = stack := by
+  induction stack with
+  | nil => intro idx l h; rfl
+  | cons x xs ih =>
+    intro idx l h
+    cases hx : x.scope.isEmpty with
+    | true =>
+      simp only [List.filter, hx, Bool.not_true] at h
+      simp only [setNthNonEmpty, hx, if_true]
+      rw [ih idx l h]
+    | false =>
+      simp only [List.filter, hx, Bool.not_false] at h
+      cases idx with
+      | zero =>
+        simp only [List.getElem?_cons_zero, Option.some.injEq] at h
+        subst h
+        simp [setNthNonEmpty, hx]
+      | succ k =>
+        simp only [List.getElem?_cons_succ] at h
+        simp only [setNthNonEmpty, hx, Bool.false_eq_true, if_false]
+        rw [ih k l h]
+
+/-- writing a collected layer's own `scope` list back changes nothing -/
+theorem setLayerScope_self (d : Doc) (idx : Nat) (l : Layer)
+    (h : (collectScopeLayers d)[idx]? = some l) : d.setLayerScope idx l.scope = d := by
+  unfold collectScopeLayers at h
+  unfold Doc.setLayerScope
+  cases hs : d.scope.isEmpty with
+  | true =>
+    simp only [hs, if_true, List.nil_append] at h
+    simp only [if_true]
+    rw [setNthNonEmpty_self _ _ _ h]
+  | false =>
+    simp only [hs, Bool.false_eq_true, if_false] at h
+    simp only [Bool.false_eq_true, if_false]
+    cases idx with
+    | zero =>
+      simp only [List.cons_append, List.nil_append, List.getElem?_cons_zero, Option.some.injEq] at h
+      subst h
+      rfl
+    | succ k =>
+      simp only [List.cons_append, List.nil_append, List.getElem?_cons_succ] at h
+      simp only
+      rw [setNthNonEmpty_self _ _ _ h]
+
+/-- A failing attrset-level operation on a layer collected from the document leaves the document
+    as it was (up to the identity spent on the scratch set). -/
+theorem onLayer_fromDoc_error (d : Doc) (idx : Nat) (op : Node → EditM Unit) (P : Err → Prop)
+    (hscr : d.scratch = none)
+    (hop : ∀ s, s.isSet = true → FailsClean (op s) P)
+    {e : Err} {d' : Doc}
+    (h : onLayer (collectScopeLayers d) true idx op d = (.error e, d')) :
+    d.same d' ∧ (idx < (collectScopeLayers d).length → P e) := by
+  unfold onLayer at h
+  split at h
+  · rename_i hl
+    simp only [Prod.mk.injEq, Except.error.injEq] at h
+    obtain ⟨rfl, rfl⟩ := h
+    refine ⟨rfl, fun hlt => ?_⟩
+    rw [List.getElem?_eq_none_iff] at hl
+    omega
+  · rename_i l hl
+    dsimp only at h
+    rcases hr : op (layerAsSet d.next l) { d with next := d.next + 1, scratch := some (layerAsSet d.next l) } with ⟨r, d1⟩
+    rw [hr] at h
+    cases r with
+    | ok u => simp at h
+    | error e1 =>
+      obtain ⟨rfl, hP⟩ := hop _ rfl _ _ _ hr
+      simp only [if_true, Option.getD_some, Prod.mk.injEq, Except.error.injEq] at h
+      obtain ⟨rfl, rfl⟩ := h
+      refine ⟨?_, fun _ => hP⟩
+      have := setLayerScope_self { d with next := d.next + 1, scratch := none } idx l hl
+      simp only [layerAsSet, setValues]
+      unfold Doc.same
+      rw [this]
+      cases d
+      simp_all
+
+/-- when the attrset-level operation cannot fail on the scratch set, `onLayer` cannot fail -/
+theorem onLayer_noFail (layers : List Layer) (fd : Bool) (idx : Nat) (op : Node → EditM Unit) (l : Layer)
+    (hl : layers[idx]? = some l) (hop : ∀ sid, NoFail (op (layerAsSet sid l)))
+    {d d' : Doc} {e : Err} (h : onLayer layers fd idx op d = (.error e, d')) : False := by
+  unfold onLayer at h
+  rw [hl] at h
+  dsimp only at h
+  obtain ⟨a, d1, hr⟩ := hop d.next { d with next := d.next + 1, scratch := some (layerAsSet d.next l) }
+  rw [hr] at h
+  simp at h
+
+theorem resolveTarget_ok {d : Doc} {ts : Node} (h : resolveTarget d = .ok ts) :
+    ts = d.target ∧ d.noTarget = none := by
+  unfold resolveTarget at h
+  split at h
+  · cases h
+  · cases h
+  · rename_i hn; cases h; exact ⟨rfl, hn⟩
+
+theorem resolveTarget_error {d : Doc} {e : Err} (h : resolveTarget d = .error e)
+    (hn : d.noTarget ≠ some .resolution) : e = .value := by
+  unfold resolveTarget at h
+  split at h
+  · rename_i h1; exact absurd h1 hn
+  · cases h; rfl
+  · cases h
+
+theorem splitScopeNpath_some {p : Text} {depth : Nat} {rest : Text}
+    (h : splitScopeNpath p = .ok (some (depth, rest))) : 0 < depth := by
+  unfold splitScopeNpath at h
+  dsimp only at h
+  split at h
+  · cases h
+  · split at h
+    · cases h
+    · simp only [Except.ok.injEq, Option.some.injEq, Prod.mk.injEq] at h
+      omega
+
+/-- the post-condition of a rejected top-level edit -/
+def Rejected (d : Doc) (e : Err) (d' : Doc) : Prop :=
+  d.same d' ∧ (d.target.isSet = true → d.noTarget ≠ some .resolution → KV e)
+
+theorem Rejected.here_value (d : Doc) : Rejected d .value d := ⟨rfl, fun _ _ => Or.inr rfl⟩
+
+theorem Rejected.of_clean {d d' : Doc} {e : Err} {ts : Node} {m : EditM Unit}
+    (hc : FailsClean m (fun e => ts.isSet = true → KV e)) (hts : ts = d.target)
+    (h : m d = (.error e, d')) : Rejected d e d' := by
+  obtain ⟨rfl, hk⟩ := hc _ _ _ h
+  exact ⟨rfl, fun h1 _ => hk (hts ▸ h1)⟩
+
+theorem setValue_error {p : Text} {v : ValueArg} {d d' : Doc} {e : Err}
+    (hscr : d.scratch = none) (h : setValue p v d = (.error e, d')) : Rejected d e d' := by
+  unfold setValue at h
+  split at h
+  · cases h; exact Rejected.here_value _
+  · cases h; exact Rejected.here_value _
+  · rename_i v
+    split at h
+    · cases h; exact Rejected.here_value _
+    · cases h; exact Rejected.here_value _
+    · split at h
+      · rename_i e0 hs
+        cases h
+        rw [splitScopeNpath_error p _ hs]
+        exact Rejected.here_value _
+      · -- scoped
+        rename_i depth scopeNpath hs
+        have hdepth := splitScopeNpath_some hs
+        split at h
+        · rename_i e0 hr
+          cases h
+          exact ⟨rfl, fun _ hn => Or.inr (resolveTarget_error hr hn)⟩
+        · rename_i ts hr
+          obtain ⟨hts, hnt⟩ := resolveTarget_ok hr
+          dsimp only at h
+          cases hc : ((collectScopeLayers d).isEmpty && depth == 1) with
+          | true =>
+            simp only [hc, if_true] at h
+            simp only [Bool.and_eq_true, beq_iff_eq] at hc
+            obtain ⟨_, rfl⟩ := hc
+            cases hf : formatNPath currentAnchor scopeNpath with
+            | error e0 =>
+              simp only [hf] at h
+              cases h
+              rw [formatNPath_error _ _ _ hf]
+              exact Rejected.here_value _
+            | ok segs =>
+              simp only [hf] at h
+              cases hp : pathExistsInAttrset ts segs with
+              | true =>
+                simp only [hp, if_true] at h
+                exact Rejected.of_clean (setValueInAttrset_clean _ _ _ _) hts h
+              | false =>
+                simp only [hp, Bool.false_eq_true, if_false, List.length_singleton, gt_iff_lt,
+                  Nat.lt_irrefl, Nat.sub_self] at h
+                split at h
+                · cases h
+                · rename_i e1 d1 ho
+                  exfalso
+                  refine onLayer_noFail _ _ _ _
+                    { scope := [], order := [], bodyBefore := d.tBefore, bodyAfter := d.tAfter, afterLet := none }
+                    ?_ (fun sid => ?_) ho
+                  · rfl
+                  · exact setValueInAttrset_empty_noFail _ _ _ _ _ hf rfl rfl
+          | false =>
+            simp only [hc, Bool.false_eq_true, if_false] at h
+            split at h
+            · cases h; exact Rejected.here_value _
+            · split at h
+              · cases h
+              · rename_i hle e1 d1 ho
+                cases h
+                obtain ⟨h1, h2⟩ := onLayer_fromDoc_error d _ _ (fun e => KV e) hscr
+                  (fun s hs => (setValueInAttrset_clean s false scopeNpath v).mono fun _ hk => hk hs) ho
+                exact ⟨h1, fun _ _ => h2 (by omega)⟩
+      · -- unscoped
+        split at h
+        · rename_i e0 hr
+          cases h
+          exact ⟨rfl, fun _ hn => Or.inr (resolveTarget_error hr hn)⟩
+        · rename_i ts hr
+          exact Rejected.of_clean (setValueInAttrset_clean _ _ _ _) (resolveTarget_ok hr).1 h
+
+theorem removeValue_error {p : Text} {d d' : Doc} {e : Err}
+    (hscr : d.scratch = none) (h : removeValue p d = (.error e, d')) : Rejected d e d' := by
+  unfold removeValue at h
+  split at h
+  · cases h; exact Rejected.here_value _
+  · cases h; exact Rejected.here_value _
+  · split at h
+    · rename_i e0 hs
+      cases h
+      rw [splitScopeNpath_error p _ hs]
+      exact Rejected.here_value _
+    · rename_i depth scopeNpath hs
+      have hdepth := splitScopeNpath_some hs
+      split at h
+      · rename_i e0 hr
+        cases h
+        exact ⟨rfl, fun _ hn => Or.inr (resolveTarget_error hr hn)⟩
+      · dsimp only at h
+        split at h
+        · cases h; exact Rejected.here_value _
+        · split at h
+          · rename_i hle _ e1 d1 ho
+            cases h
+            obtain ⟨h1, h2⟩ := onLayer_fromDoc_error d _ _ (fun e => KV e) hscr
+              (fun s hs => (removeValueInAttrset_clean s scopeNpath).mono fun _ hk => hk hs) ho
+            exact ⟨h1, fun _ _ => h2 (by omega)⟩
+          · cases h
+    · split at h
+      · rename_i e0 hr
+        cases h
+        exact ⟨rfl, fun _ hn => Or.inr (resolveTarget_error hr hn)⟩
+      · rename_i ts hr
+        have key : removeValueInAttrset ts p d = (.error e, d') := by
+          rw [← h]
+          unfold removeValueInAttrset
+          cases hf : formatNPath currentAnchor p with
+          | error e => rfl
+          | ok segs =>
+            cases segs with
+            | nil => rfl
+            | cons seg0 segRest =>
+              dsimp only
+              split
+              · rfl
+              · split
+                · split
+                  · rfl
+                  · split <;> rfl
+                · split <;> rfl
+        clear h
+        have h := key
+        exact Rejected.of_clean (removeValueInAttrset_clean _ _) (resolveTarget_ok hr).1 h
 
 end Nima
